@@ -457,6 +457,8 @@ Fixpoint cancel_loop (rev : bool) (d : list entry) (n : nat) (T : topo) : option
   end.
 
 Inductive ares := ARet (rc : Z) (T : topo) | ACrash.
+(* for the driver *)
+Definition flag_reverse : N := HWLOC_TOPOLOGY_DIFF_APPLY_REVERSE.
 
 Definition diff_apply (flags : N) (d : list entry) (T : topo) : ares :=
   if negb (N.ldiff flags HWLOC_TOPOLOGY_DIFF_APPLY_REVERSE =? 0) then ARet (-1) T
